@@ -28,7 +28,7 @@ ASSUMPTIONS = [
     "don't-care pairs (bool against float/complex, Any, Literal containing 1 vs True/1.0, str against Sequence) give no verdict",
     "with the switch off, non-node values in child fields are outside the statement (the digest needs child nodes); property fields accept any value",
 ]
-MUST_SEE = ["field_names_resembling_builtin_ones", "ill_typed_origin", "mixin_inherited_fields", "failed_operations_with_checks_on", "same_annotation_text_other_type", "false_vs_bool", "bool_vs_int", "bool_vs_int_union", "bool_in_int_tuple", "fixed_tuple_too_long", "fixed_tuple_too_short", "multi_two_bad", "noninit_bad_default", "switch_off_same_node", "nonconforming", "conforming", "noncompare_fields_checked", "ill_typed_value_equal_to_default", "parent_used_before_subclass"]
+MUST_SEE = ["fieldless_marker_classes", "field_names_resembling_builtin_ones", "ill_typed_origin", "mixin_inherited_fields", "failed_operations_with_checks_on", "same_annotation_text_other_type", "false_vs_bool", "bool_vs_int", "bool_vs_int_union", "bool_in_int_tuple", "fixed_tuple_too_long", "fixed_tuple_too_short", "multi_two_bad", "noninit_bad_default", "switch_off_same_node", "nonconforming", "conforming", "noncompare_fields_checked", "ill_typed_value_equal_to_default", "parent_used_before_subclass"]
 CONFIG = {
     "quick": {"shards": 16, "d2_sample": 150, "multi": 300, "watchdog_s": 600},
     "thorough": {"shards": 32, "d2_sample": 400, "multi": 600, "watchdog_s": 3400},
@@ -267,6 +267,28 @@ def run_shard(ctx):
             r[1].detach()
         if got != exp:
             ctx.violation("nonconforming-accepted" if r[0] == "ok" else "invalid-fields-wrong", f"origin given as {type(kw['origin']).__name__}: invalid fields {got}, expected {exp}", {"values": {k_: vrepr(v) for k_, v in kw.items()}})
+    # ... also in classes without fields of their own (marker nodes: Pass, Break), where it is the only checked field
+    src = f"@dataclass(frozen=True)\nclass {P}Marker(ASTNode):\n    pass\n\n\n@dataclass(frozen=True)\nclass {P}Marker2({P}Marker):\n    pass\n"
+    exec(compile(src, "<c13 marker>", "exec", dont_inherit=True), ns)
+    from pyoak.origin import CodeOrigin, get_code_range
+
+    for cn in (f"{P}Marker", f"{P}Marker2"):
+        for kw, exp in (
+            (dict(), []),
+            (dict(origin=CodeOrigin(MemoryTextSource("pass", source_uri=f"c13://{P}/m"), get_code_range(0, 1, 0, 4, 1, 4))), []),
+            (dict(origin=""), ["origin"]),
+            (dict(origin=()), ["origin"]),
+            (dict(origin=None), ["origin"]),
+            (dict(origin=NO_ORIGIN), []),
+        ):
+            ctx.evaluations += 1
+            ctx.count("fieldless_marker_classes")
+            r = construct(ns[cn], kw, True)
+            got = [] if r[0] == "ok" else r[1]
+            if r[0] == "ok":
+                r[1].detach()
+            if got != exp:
+                ctx.violation("nonconforming-accepted" if r[0] == "ok" else "invalid-fields-wrong", f"{cn}({', '.join(kw)}) with origin {vrepr(kw.get('origin', 'default'))}: invalid fields {got}, expected {exp}", {"values": {k_: vrepr(v) for k_, v in kw.items()}})
     # ------------------------------------------------------------ single-field classes
     for k, a in enumerate(mine):
         ctx.case = ("single", k)
